@@ -471,6 +471,8 @@ package core
 //@ ghost var gTran *SuTran
 // gBlockThrew: the last Thread.Call ended in a panic (the block/function threw)
 //@ ghost var gBlockThrew bool
+// gBlockRet: ... and the value it threw was BlockReturn (return from the enclosing function)
+//@ ghost var gBlockRet bool
 // (the effect of the underlying database transaction on the database is outside this model)
 //@ func (t ITran) Complete() (r)
 //@   assumed
@@ -501,9 +503,9 @@ package core
 //@ func (th *Thread) Call(fn, args) (r)
 //@   assumed
 //@   maypanic
-//@   modifies all, gBlockThrew
+//@   modifies all, gBlockThrew, gBlockRet
 //@   ensures !gBlockThrew
-//@   on_panic gBlockThrew
+//@   on_panic gBlockThrew && (gBlockRet <==> panicvalue() == BlockReturn)
 //@ func ToBool(x) (r)
 //@   assumed
 //@   pure
